@@ -38,6 +38,11 @@ var verifFormatSnippets = []string{
 	"u = provider::fn (x)\n",
 	"z = a [0] . b\n",
 	"\n",
+	// gaps wider than any fixed-size space buffer: alignment next to a very long name, a long run
+	// before a trailing comment
+	"a_very_long_attribute_name_that_goes_on_and_on_and_on_for_more_than_forty_columns = 1\n",
+	"q = 1 # c\n",
+	"an_even_longer_attribute_name_that_goes_on_and_on_and_on_and_on_and_on_and_on_and_on_well_past_eighty_columns_wide = [1, 2] # note\n",
 }
 
 func verifLexSig(src []byte) ([]string, bool) {
